@@ -370,12 +370,26 @@ def proof_stage(ctx, prop_file, extra_targets=None):
     info["discharged"] = len(names)
     info["print_assumptions"] = res
     info["property_theorems"] = sorted(res.keys())
+    if ctx.tier == "thorough":
+        # independent re-check of the compiled theorem file and everything it depends on
+        mod = "Verif." + prop_file[:-2].replace("/", ".")
+        rc, out = sh(["coqchk", "-silent", "-o", "-Q", ".", "Verif", mod], cwd=os.path.join(VERIF, "coq"),
+                     timeout=5400)
+        summary = out[out.find("CONTEXT SUMMARY"):] if "CONTEXT SUMMARY" in out else out[-2000:]
+        ax = re.search(r"\* Axioms:\s*(.*?)\n\s*\n\* Constants", summary, re.S)
+        axioms = " ".join(ax.group(1).split()) if ax else "?"
+        info["coqchk"] = {"cmd": "coqchk -silent -o -Q . Verif " + mod, "exit": rc, "axioms": axioms,
+                          "type_in_type": "<none>" in summary.split("type-in-type:")[-1][:20] if "type-in-type:" in summary else None}
+        if rc != 0 or axioms != "<none>":
+            ctx.violation({"kind": "coqchk-failed-or-axioms", "module": mod, "axioms": axioms, "log": out[-3000:]},
+                          found_input=False)
+            return info, False
     return info, True
 
 
 STD_TRUSTED = [
     "Coq 8.16.1 kernel and its VM (vm_compute used for reflection proofs and to evaluate the model on cases); native_compute not used",
-    "no axioms declared; Print Assumptions of every property theorem is recorded under print_assumptions",
+    "no axioms declared; Print Assumptions of every property theorem is recorded under print_assumptions; the thorough tier re-checks the compiled theorem file and all its dependencies with coqchk -o (axioms reported: none)",
     "hand-written Gallina model tied to /repo by the correspondence check of this run (Go harness compiled from /repo's working tree via build overlay, -tags verif)",
     "Go toolchain go1.26.8, Python driver tools/vlib.py, case-file writer",
 ]
